@@ -32,6 +32,23 @@ MUTANTS = [
      "            return consts.LABEL_TUPLE, tuple(self._box(item) for item in (obj if len(obj) != 1 else obj + obj))"),
     ("c01-pin-removed", "C01", "rpyc/core/protocol.py",
      "                _pinned = {}\n                self._pin_local_refs(package, _pinned)", "                pass"),
+    # ---- C02
+    ("c02-buffiter-drops-partial", "C02", "rpyc/utils/helpers.py",
+     "        if not items:\n            break", "        if len(items) < count // factor and count > chunk:\n            break\n        if not items:\n            break"),
+    ("c02-call-no-kwargs", "C02", "rpyc/core/netref.py",
+     "        def __call__(_self, *args, **kwargs):\n            kwargs = tuple(kwargs.items())", "        def __call__(_self, *args, **kwargs):\n            kwargs = ()"),
+    ("c02-ne-as-eq", "C02", "rpyc/core/netref.py",
+     "        return syncreq(self, consts.HANDLE_CMP, other, '__ne__')", "        return syncreq(self, consts.HANDLE_CMP, other, '__eq__')"),
+    ("c02-setattr-swallowed", "C02", "rpyc/core/netref.py",
+     "            syncreq(self, consts.HANDLE_SETATTR, name, value)", "            syncreq(self, consts.HANDLE_SETATTR, name, value) if name != 'y' else None"),
+    ("c02-delattr-as-getattr", "C02", "rpyc/core/netref.py",
+     "            syncreq(self, consts.HANDLE_DELATTR, name)", "            syncreq(self, consts.HANDLE_GETATTR, name)"),
+    ("c02-ctxexit-not-called", "C02", "rpyc/core/protocol.py",
+     "        return self._handle_getattr(obj, \"__exit__\")(exc, typ, tb)", "        return False"),
+    ("c02-dir-truncated", "C02", "rpyc/core/protocol.py",
+     "        return tuple(dir(obj))", "        return tuple(dir(obj))[:-1]"),
+    ("c02-hash-local", "C02", "rpyc/core/netref.py",
+     "    def __hash__(self):\n        return syncreq(self, consts.HANDLE_HASH)", "    def __hash__(self):\n        return id(self) & 0xffff"),
     # ---- C03
     ("c03-dumpable-isinstance", "C03", "rpyc/core/brine.py",
      "    if type(obj) in simple_types:\n        return True", "    if isinstance(obj, tuple(simple_types)):\n        return True"),
